@@ -27,8 +27,17 @@ def make_actor(kind, grid, agents, mapping, stacked):
     from abmarl.sim.gridworld import actor as A
     cls = {0: A.BinaryAttackActor, 1: A.EncodingBasedAttackActor, 2: A.SelectiveAttackActor,
            3: A.RestrictedSelectiveAttackActor}[kind]
-    return cls(grid=grid, agents=agents, attack_mapping={k: set(v) for k, v in mapping},
-               stacked_attacks=bool(stacked))
+    real = {k: set(v) for k, v in mapping}
+    if (len(mapping) + sum(len(v) for _, v in mapping) + kind) % 2:
+        # the mapping (and the stacking option) reach their values through the public setters after
+        # construction: eligibility must follow the attributes as they are now
+        encs = sorted(real)
+        actor = cls(grid=grid, agents=agents, attack_mapping={e: set(encs) for e in encs},
+                    stacked_attacks=not bool(stacked))
+        actor.attack_mapping = real
+        actor.stacked_attacks = bool(stacked)
+        return actor
+    return cls(grid=grid, agents=agents, attack_mapping=real, stacked_attacks=bool(stacked))
 
 
 def impl(inp):
